@@ -390,7 +390,9 @@ class Reshape(ArrayExpr):
 
         # Apply slice to input, then reshape
         sliced_input = new_collection(self.array)[tuple(input_index)]
-        result = Reshape(sliced_input.expr, new_out_shape)
+        # Go through ``reshape`` so its fast paths (identity, single block)
+        # apply to the sliced input as they would for a user call.
+        result = reshape(sliced_input, new_out_shape).expr
 
         # Re-apply None insertions if any using expand_dims
         if none_positions:
